@@ -99,6 +99,8 @@ def run_case(fk, c, M, rng, idx):
            "trail_w": len(trail), "stock_end": stock_end(body), "case": c, "hex": body.hex()[:160]}
     if c["kind"] == "bytes":
         src = body
+    elif c["kind"] == "bytearray":
+        src = bytearray(body)
     elif c["kind"] in ("seekable", "file", "buffered"):
         if c["kind"] == "seekable":
             src = io.BytesIO(data)
@@ -117,11 +119,13 @@ def run_case(fk, c, M, rng, idx):
     first = {"ok": False, "dumps_len": -1, "dumps_is_slice": False, "pos_after": -1, "rest_len": -1, "rest_is_tail": False, "exc": ""}
     try:
         p = fk.Pickled.load(src)
+        if c["kind"] == "bytearray":        # the caller re-uses its buffer (readinto idiom): the parsed pickle keeps its own bytes
+            src[:] = bytes((b ^ 0x5A) for b in src)
         d = p.dumps()
         first.update(ok=True, dumps_len=len(d), dumps_is_slice=d == parts[0])
         if c["kind"] in ("seekable", "file", "buffered"):
             first["pos_after"] = src.tell()
-        if c["kind"] != "bytes":
+        if c["kind"] not in ("bytes", "bytearray"):
             rest = src.read()
             first.update(rest_len=len(rest), rest_is_tail=rest == body[len(parts[0]):])
     except Exception as e:  # noqa: BLE001
@@ -149,10 +153,12 @@ def run_case(fk, c, M, rng, idx):
     rec["loader"] = ld
     stack = {"ran": c["trail"] == "none", "ok": False, "n": -1, "part_lens": [], "parts_are_slices": False, "concat_is_input": False}
     if stack["ran"]:
-        src2 = body if c["kind"] == "bytes" else (NoSeek(body) if c["kind"] == "nonseekable" else
+        src2 = body if c["kind"] == "bytes" else bytearray(body) if c["kind"] == "bytearray" else (NoSeek(body) if c["kind"] == "nonseekable" else
                                                   (io.BufferedReader(io.BytesIO(body)) if c["kind"] == "buffered" else io.BytesIO(body)))
         try:
             sp = fk.StackedPickle.load(src2)
+            if isinstance(src2, bytearray):
+                src2[:] = bytes((b ^ 0x5A) for b in src2)      # buffer re-used by the caller after the stack was parsed
             ds = [q.dumps() for q in sp]
             stack.update(ok=True, n=len(ds), part_lens=[len(x) for x in ds], parts_are_slices=ds == parts, concat_is_input=b"".join(ds) == body)
         except Exception as e:  # noqa: BLE001
